@@ -31,6 +31,7 @@ def annotate(trace_path, meta):
         ep = lines[i:j + 1]
         if m:
             sc = {k: m[k] for k in ("role", "cb", "cred", "pop", "carrier", "verifier", "ver", "kx")}
+            if m.get("fault"): sc["fault"] = 1
             tam = [s for d in ep for s in d.get("sub", []) if s["k"] == "T"]
             applied = bool(tam) and tam[-1]["x"] == 1
             wants_tamper = sc["pop"] in ("sigflip", "alg", "stale", "paramflip")
@@ -43,9 +44,9 @@ def annotate(trace_path, meta):
                 cm = [s["n"] for d in ep if d.get("ep") == m["prover"] for s in d.get("sub", []) if s["k"] == "S" and s["t"] == "22" and s["x"] == 11]
                 if cm and cm[-1] < 24 and sc["cred"] != "nocert":
                     sc["cred"] = "nocert"; sc["pop"] = "ok"; vac = True
-            fin = [d for d in ep if d.get("ev") == "state" and d.get("ep") == sc["verifier"]]
+            fin = [d for d in ep if d.get("ev") == "state" and d.get("ep") == sc["verifier"] and d.get("hs") != "NOSESSION"]
             cbs = [s["n"] for d in ep if d.get("ep") == sc["verifier"] for s in d.get("sub", []) if s["k"] == "CB"]
-            summ[tag] = dict(sc=sc, vacuous=vac, hc=fin[-1]["hc"] if fin else None, cbs=cbs, created=all(d.get("hs") != "NOSESSION" for d in ep if d.get("ev") == "new"))
+            summ[tag] = dict(sc=sc, vacuous=vac, hc=fin[-1].get("hc") if fin else None, cbs=cbs, created=all(d.get("hs") != "NOSESSION" for d in ep if d.get("ev") == "new"))
             for d in ep:
                 d["sc"] = sc
         out += ep
